@@ -278,9 +278,10 @@ func (C11) Run(c core.Case, ctx *core.Ctx) []core.Violation {
 				}
 			}
 		}
-		for _, res := range rt.Results {
+		for oi, res := range rt.Results {
 			if res != nil && !res.Returned {
-				ctx.St.Inc("cross_c06_panic_or_divergence")
+				// a later use that blows up has not observed the first execution's outputs
+				out = append(out, core.Violation{Class: res.PanicClass, Site: res.PanicSite, Detail: fmt.Sprintf("op %d (%s) did not return: %s", oi, w.Ops[oi].Kind, trunc(res.PanicDetail))})
 			}
 		}
 		// a use after the first must observe the outputs of the first execution:
